@@ -243,6 +243,10 @@ func (f *Failover) Get(
 
 	// Disabling defer to unlock in background.
 	alreadyLocked = true
+
+	// Copying key to allow mutations of original argument while update runs in background.
+	key = append([]byte(nil), key...)
+
 	// Spawning cache update in background.
 	go func() {
 		defer func() {
